@@ -212,9 +212,16 @@ theorem abs_flush (s : Shard) (k : Key) (t : TS) : s.flush.abs k t = s.abs k t :
   · next hne =>
     simp only [Shard.abs, cacheLookup, List.find?_nil, Option.map_none, Option.none_or]
     rw [filesLookup_append]
-    simp only [filesLookup, Option.none_or, TFile.lookup, TFile.tombstoned, List.any_nil,
-      Bool.false_eq_true, if_false]
-    rw [blocksLookup_flushBlocks]
+    have hnew : filesLookup (if (flushBlocks s.cache).isEmpty = true then [] else
+        [{ gen := s.nextGen, seq := 1, mtime := MTime.fresh, blocks := flushBlocks s.cache,
+           tombs := [], tombM := none }]) k t = cacheLookup s.cache k t := by
+      rw [← blocksLookup_flushBlocks]
+      split
+      · next he =>
+        simp only [List.isEmpty_iff] at he
+        simp [filesLookup, he, blocksLookup]
+      · simp [filesLookup, TFile.lookup, TFile.tombstoned]
+    rw [hnew]
     rfl
 
 end Influx.Backup
